@@ -37,6 +37,7 @@ TYPES: dict[str, dict[str, tuple[str, str]]] = {
         'RwN': ('N', 'a'), 'DgN': ('N', 'N'), 'DgX': ('N', 'N'), 'ClN': ('a', 'N'),
         'P': ('a', 'a'), 'k2': ('a', 'a'), 'IL': ('L', 'L'), 'kL': ('L', 'L'),
         'Dr': ('T', 'T'), 'Drt': ('T', 'T'), 'RwT': ('T', 'S'), 'ClT': ('S', 'T'),
+        'Bm': ('LM', 'LM'), 'Bmi': ('LM', 'LM'), 'Bv': ('LM', 'LV'), 'Bvt': ('LV', 'LM'),
     },
     # move-axis operators in every spelling on a pytree whose leaves have different ranks (all dims 2, so every operator
     # maps the space to itself and any two compose); the inverse-pair rule must not be fooled by mixed-sign spellings
@@ -160,7 +161,11 @@ def build(domain: str) -> dict:
         L, L1, N = [a, a], [a], [[a, a]]
         S = StokesPyTree.class_for('QU').structure_for((2,), f32)
         T = [S, S]
-        spaces = {'a': a, 'L': L, 'L1': L1, 'N': N, 'S': S, 'T': T}
+        m22, v4 = sds(2, 2), sds(4)
+        spaces = {'a': a, 'L': L, 'L1': L1, 'N': N, 'S': S, 'T': T, 'LM': [m22, m22], 'LV': [v4, v4]}
+        M01, M10 = MoveAxisOperator(0, 1, in_structure=m22), MoveAxisOperator(1, 0, in_structure=m22)
+        Rv = RavelOperator(in_structure=m22)
+        Bv = BlockDiagonalOperator([Rv, Rv])
         P = dense([[1.0, 2.0], [3.0, 5.0]], a)
         Q = dense([[0.0, 1.0], [-1.0, 2.0]], a)
         D = DiagonalOperator(arr([2.0, 4.0]), in_structure=a)
@@ -177,6 +182,8 @@ def build(domain: str) -> dict:
             'DgX': BlockDiagonalOperator([Dg]), 'ClN': BlockColumnOperator([[Q, P]]),
             'P': P, 'k2': hom(2.0, a), 'IL': IdentityOperator(L), 'kL': hom(-2.0, L),
             'Dr': Dr, 'Drt': Dr.T, 'RwT': BlockRowOperator([R, R.T]), 'ClT': BlockColumnOperator([R.T, R]),
+            # block products that cancel only through a rule inside the block (not through the `@` shortcut)
+            'Bm': BlockDiagonalOperator([M01, M01]), 'Bmi': BlockDiagonalOperator([M10, M10]), 'Bv': Bv, 'Bvt': Bv.T,
         }
     elif domain == 'AXT':
         t = {'a': sds(2, 2), 'b': sds(2, 2, 2)}
